@@ -23,13 +23,14 @@ from pipefunc import PipeFunc, Pipeline
 
 import c09_ext
 import c09_race
+import c09_values
 import framework
 import mapgen
 import pipegen
 import terms
 
 PID = "C09"
-PROPS = ["PfModel.Props.C09", "PfModel.Props.C09Outcome", "PfModel.Props.C09Fail", "PfModel.Props.C09Policies"]
+PROPS = ["PfModel.Props.C09", "PfModel.Props.C09Outcome", "PfModel.Props.C09Fail", "PfModel.Props.C09Policies", "PfModel.Props.C09Keys"]
 DRIVER = "C09"
 RULE = ("random DAGs of 1-4 term-building functions (tuple outputs, shared roots, defaults, bound values, renames) x EVERY subset of "
         "cached functions x {simple, lru, hybrid, disk} x histories of 2-6 steps: calls (random output, random listed argument "
@@ -37,14 +38,21 @@ RULE = ("random DAGs of 1-4 term-building functions (tuple outputs, shared roots
         "earlier calls, calls that FAIL in the middle of the evaluation after some frames have stored their results) and mutations "
         "(update_defaults, update_bound, replace); an exhaustive family on a 2-function chain and one on a chain whose second "
         "function lacks an argument (failing calls); LRUCache(max_size=1..2) histories are modelled with eviction; map runs "
-        "with repeated input values (sequential twice, thread pool with a shared cache).  A history is non-trivial when the model "
-        "reports at least one cache hit; distinct by (pipeline, cached set, history)")
+        "with repeated input values (sequential twice, thread pool with a shared cache).  After a mutation an earlier call is mostly "
+        "issued again, half of the time relying on the defaults as they are then; an exhaustive family 'call, update_defaults, related "
+        "call, first call again' on a chain whose second function is downstream of the owner of a defaulted parameter.  In 40 % of the "
+        "random histories and map cases the argument values have REPRESENTATION FREEDOM (harness/c09_values.py): dicts / defaultdicts / "
+        "Counters / sets built in another insertion order, nested containers, separately built lists, tuples and arrays, keywords passed "
+        "in another order - every occurrence of a value is built in a way of its own, the model gets the abstract value.  A history is "
+        "non-trivial when the model reports at least one cache hit; distinct by (pipeline, cached set, history)")
 ASSUMPTIONS = ["the cache containers are black boxes that keep what was put while below their size limit (C14); LRUCache(max_size=n) is "
                "modelled by the recency-list policy PF.PipeCache.lruPolicy n (= C14's Recency, which C14 proves the LRUCache refines)",
                "to_hashable is injective on the generated values (C15); the model uses a printer of the term as the hashable",
                "root_args is compared with the model's reachable-root set on every case (flag roots_ok), not proved equal",
                "user functions never raise (C13's business); a call fails in the middle of the evaluation only for a missing argument or an unknown output",
-               "PipeFunc.update_defaults applied to a single function of a pipeline (which can make shared defaults inconsistent) is not generated"]
+               "PipeFunc.update_defaults applied to a single function of a pipeline (which can make shared defaults inconsistent) is not generated",
+               "values with representation freedom reach the model as their abstract value (equal Python objects of the same type = equal PF.Val); keys that "
+               "cannot be ordered and object arrays of unhashable elements passed whole (C15's known findings) are not generated"]
 
 CACHE_KINDS = ["simple", "lru", "hybrid", "disk"]
 
@@ -55,12 +63,12 @@ def make_pf(f, log, cache):
     origs = [orig for _, orig in f["params"]]
     renames = {orig: p for p, orig in f["params"] if orig != p}
     inv = {p: orig for p, orig in f["params"]}
-    sig_defaults = {inv[p]: terms.dec(v) for p, v in f.get("defaults", [])}
+    sig_defaults = {inv[p]: c09_values.dec(v) for p, v in f.get("defaults", [])}
     fn = terms.make_func(f["name"], origs, f["outputs"], defaults=sig_defaults, log=log)
     on = f["outputs"][0] if len(f["outputs"]) == 1 else tuple(f["outputs"])
     kw = {}
     if f.get("bound"):
-        kw["bound"] = {p: terms.dec(v) for p, v in f["bound"]}
+        kw["bound"] = {p: c09_values.dec(v) for p, v in f["bound"]}
     return PipeFunc(fn, on, renames=renames, cache=bool(cache), **kw)
 
 
@@ -116,10 +124,10 @@ def apply_impl(p, log, step, cached_names):
     try:
         with contextlib.redirect_stdout(io.StringIO()):
             if "update_defaults" in step:
-                p.update_defaults({k: terms.dec(v) for k, v in step["update_defaults"]})
+                p.update_defaults({k: c09_values.dec(v) for k, v in step["update_defaults"]})
             elif "update_bound" in step:
                 ub = step["update_bound"]
-                p[out_name(ub["o"])].update_bound({k: terms.dec(v) for k, v in ub["b"]})
+                p[out_name(ub["o"])].update_bound({k: c09_values.dec(v) for k, v in ub["b"]})
             elif "replace" in step:
                 new = step["replace"]
                 p.replace(make_pf(new, log, cached_names is not None and new["name"] in cached_names))
@@ -132,11 +140,12 @@ def observe(p, log, call):
     log.clear()
     try:
         with contextlib.redirect_stdout(io.StringIO()):
-            r = p.run(call["out"], kwargs={k: terms.dec(v) for k, v in call["kw"]}, full_output=call["full"])
+            r = p.run(call["out"], kwargs={k: c09_values.dec(v) for k, v in call["kw"]}, full_output=call["full"])
         if call["full"]:
-            obs = {"value": terms.enc(r[call["out"]]), "full": sorted([[k if isinstance(k, str) else ",".join(k), terms.enc(v)] for k, v in r.items()], key=lambda kv: kv[0])}
+            obs = {"value": c09_values.enc(r[call["out"]]),
+                   "full": sorted([[k if isinstance(k, str) else ",".join(map(str, k)), c09_values.enc(v)] for k, v in r.items()], key=lambda kv: str(kv[0]))}
         else:
-            obs = {"value": terms.enc(r)}
+            obs = {"value": c09_values.enc(r)}
     except Exception as e:  # noqa: BLE001
         obs = {"err": exc_enum(e)}
     obs["calls"] = log.names()
@@ -149,11 +158,17 @@ def resident_keys(p):
     if not isinstance(p.cache, SimpleCache):
         return None
     out = []
-    for k in p.cache.cache:
-        on, items = k
-        if not (isinstance(items, tuple) and all(isinstance(i, tuple) and len(i) == 2 and isinstance(i[0], str) for i in items)):
-            continue                                       # a map-run key
-        out.append([[on] if isinstance(on, str) else list(on), sorted(i[0] for i in items)])
+    try:
+        for k in list(p.cache.cache):
+            if not (isinstance(k, tuple) and len(k) == 2):
+                out.append([["?"], [repr(type(k).__name__)]])      # not a key the pipeline writes: shows as a difference, never as a crash
+                continue
+            on, items = k
+            if not (isinstance(items, tuple) and all(isinstance(i, tuple) and len(i) == 2 and isinstance(i[0], str) for i in items)):
+                continue                                       # a map-run key
+            out.append([[on] if isinstance(on, str) else [str(x) for x in on], sorted(i[0] for i in items)])
+    except Exception as e:  # noqa: BLE001
+        return [[["?"], [exc_enum(e)]]]
     return sorted(out)
 
 
@@ -213,13 +228,18 @@ def gen_call(rng, pu, funcs, earlier):
 
 def gen_mutation(rng, funcs, cached, counter):
     outs_all = pipegen.all_outputs({"funcs": funcs})
-    kind = rng.choice(["update_defaults", "update_bound", "update_bound", "replace"])
+    kind = rng.choice(["update_defaults", "update_defaults", "update_bound", "update_bound", "replace"])
     if kind == "update_defaults":
         roots = sorted({p for f in funcs for p, _ in f["params"] if p not in outs_all and p not in {b[0] for b in f["bound"]}})
         if not roots:
             return None
-        k = rng.choice(roots)
-        return {"update_defaults": [[k, {"s": f"dflt2:{k}:{rng.randint(0, 1)}"}]]}
+        # mostly a parameter that HAS a default (calls before and after the update can both rely on it: the entry of every
+        # function downstream of its owner must not survive the update), else any root (which gets its first default)
+        with_default = [p for p in roots if any(d[0] == p for f in funcs for d in f["defaults"])]
+        ks = [rng.choice(with_default if with_default and rng.random() < 0.65 else roots)]
+        if len(roots) > 1 and rng.random() < 0.2:
+            ks.append(rng.choice([p for p in roots if p != ks[0]]))
+        return {"update_defaults": [[k, {"s": f"dflt2:{k}:{rng.randint(0, 1)}"}] for k in ks]}
     f = rng.choice(funcs)
     if kind == "update_bound":
         dn = {d[0] for d in f["defaults"]}
@@ -258,8 +278,9 @@ def gen_history(rng, desc, cached, cfg, base, length, p_mut, p_fail=0.0):
         return None
     funcs = case["funcs"]
     earlier, counter = [], [0]
+    pending = None            # an earlier call to be issued again right after a mutation (the "call, mutate, equal call" sandwich)
     for _ in range(length):
-        if rng.random() < p_mut:
+        if rng.random() < p_mut and (case["history"] or rng.random() < 0.3):
             step = gen_mutation(rng, funcs, case["cached"], counter)
             if step is None:
                 continue
@@ -267,8 +288,16 @@ def gen_history(rng, desc, cached, cfg, base, length, p_mut, p_fail=0.0):
                 return None                     # refused mutation: the twin may be half-modified; drop the history
             funcs = apply_desc(funcs, step)
             case["history"].append(step)
+            if earlier and rng.random() < 0.8:
+                pending = copy.deepcopy(rng.choice(earlier[-2:]))
         else:
-            c = gen_call(rng, pu, funcs, earlier)
+            if pending is not None:
+                c, pending = pending, None
+                if rng.random() < 0.5:          # rely on the defaults as they are now
+                    dn = {d[0] for f in funcs for d in f["defaults"]}
+                    c["kw"] = [e for e in c["kw"] if e[0] not in dn]
+            else:
+                c = gen_call(rng, pu, funcs, earlier)
             if c is None:
                 continue
             if p_fail and c["kw"] and rng.random() < p_fail:
@@ -322,6 +351,34 @@ def fail_chain_cases(max_len):
                     yield {"funcs": funcs, "cached": cached, "cache": cfg, "history": [{"call": c} for c in hist], "has_failing": True}
 
 
+def defaults_sandwich_cases():
+    """Exhaustive family "call, update_defaults, related call": g(a, b=B0)→c, f(c, x=X0)→d — `f` is DOWNSTREAM of the owner
+    of `b` and does not take `b` itself.  First call: every output x every way of supplying / leaving out a, b, x; mutation:
+    new default for b, x, a, or b and x; second call: the same call, the other `full_output`, or one keyword added / dropped."""
+    funcs = [{"name": "g", "params": [["a", "a"], ["b", "b"]], "outputs": ["c"], "defaults": [["b", {"s": "B0"}]], "bound": []},
+             {"name": "f", "params": [["c", "c"], ["x", "x"]], "outputs": ["d"], "defaults": [["x", {"s": "X0"}]], "bound": []}]
+    firsts = []
+    for full in (False, True):
+        for b in (None, 0):
+            firsts.append({"out": "c", "kw": [["a", val("a", 0)]] + ([["b", val("b", b)]] if b is not None else []), "full": full})
+            for x in (None, 0):
+                firsts.append({"out": "d", "kw": [["a", val("a", 0)]] + ([["b", val("b", b)]] if b is not None else []) +
+                               ([["x", val("x", x)]] if x is not None else []), "full": full})
+    muts = [[["b", {"s": "B1"}]], [["x", {"s": "X1"}]], [["a", {"s": "A1"}]], [["b", {"s": "B1"}], ["x", {"s": "X1"}]], [["b", {"s": "B0"}]]]
+    for cached in (["f"], ["g"], ["f", "g"]):
+        for c1 in firsts:
+            seconds = [c1, dict(c1, full=not c1["full"])]
+            for k in ("a", "b", "x"):
+                if any(e[0] == k for e in c1["kw"]):
+                    seconds.append(dict(c1, kw=[e for e in c1["kw"] if e[0] != k]))
+                elif not (k == "x" and c1["out"] == "c"):
+                    seconds.append(dict(c1, kw=c1["kw"] + [[k, val(k, 0)]]))
+            for m in muts:
+                for c2 in seconds:
+                    yield {"funcs": funcs, "cached": cached, "cache": {"type": "simple"},
+                           "history": [{"call": copy.deepcopy(c1)}, {"update_defaults": copy.deepcopy(m)}, {"call": copy.deepcopy(c2)}, {"call": copy.deepcopy(c1)}]}
+
+
 # ---------------------------------------------------------------------------------------------- known findings
 def _upstream_or_equal(funcs, target_outs, fname_or_outs):
     """Is the mutated function the producer of `target_outs` or upstream of it (in the description `funcs`)?"""
@@ -354,7 +411,7 @@ def _match_mutation(case, params, impl, model):
     if i >= len(steps) or not steps[i] or "value" not in steps[i]:
         return False
     got = impl["cached"]
-    if "value" not in got or terms.canon(steps[i]["value"]) != got["value"]:
+    if "value" not in got or c09_values.canon(steps[i]["value"]) != got["value"]:
         return False
     hist = case["history"]
     funcs_at = [case["funcs"]]
@@ -383,10 +440,10 @@ def canon_model_step(r):
     if "err" in r:
         o["err"] = r["err"]
     if "value" in r:
-        o["value"] = terms.canon(r["value"])
+        o["value"] = c09_values.canon(r["value"])
         full = {}
         for k, v in r["full"]:
-            full.setdefault(k, terms.canon(v))          # `all_results` is a dict: the first (newest) entry of the memo counts
+            full.setdefault(k, c09_values.canon(v))          # `all_results` is a dict: the first (newest) entry of the memo counts
         o["full"] = sorted([[k, v] for k, v in full.items()], key=lambda kv: kv[0])
         o["calls"] = r["calls"]
         o["hits"], o["puts"] = r.get("hits", []), r.get("puts", [])
@@ -452,7 +509,7 @@ def shrink(case, base, budget=60):
 
 
 def model_request(case, legacy=False):
-    a = {"funcs": case["funcs"], "cached": case["cached"], "history": case["history"]}
+    a = c09_values.abstract_deep({"funcs": case["funcs"], "cached": case["cached"], "history": case["history"]})
     cfg = case.get("cache") or {}
     if cfg.get("type") == "lru":
         a["lru_max"] = int((cfg.get("kwargs") or {}).get("max_size") or 128)      # LRUCache(max_size=128) by default
@@ -493,6 +550,8 @@ def judge_history(ctx, case, impl, resp, pending):
         ctx.count("history:small-lru-modelled-with-eviction")
     if case.get("has_failing"):
         ctx.count("history:with-failing-call")
+    for kind in case.get("rich") or []:
+        ctx.count(f"history:rich-values:{kind}")
     exact = True
     resident_forever = not small     # the direct second-clause check below presumes that nothing is evicted
     seen_exec = []           # (kw, function name) executed with a complete key, for the direct second clause
@@ -524,7 +583,7 @@ def judge_history(ctx, case, impl, resp, pending):
             ctx.count("model-history-ended")
             return
         # second clause, directly on the implementation: a function executed under a complete key is not executed again
-        kwkey = tuple(sorted((k, repr(v)) for k, v in call["kw"]))
+        kwkey = tuple(sorted((k, repr(c09_values.abstract(v))) for k, v in call["kw"]))      # equal ARGUMENTS, whatever their representation
         if exact and resident_forever and "err" not in c:
             for (kk, fname) in seen_exec:
                 if kk == kwkey and fname in c["calls"]:
@@ -608,6 +667,19 @@ def search_neighbourhood(ctx, case, base, tries=40):
                 funcs = apply_desc(funcs, s)
         earlier = [s["call"] for s in cand["history"] if "call" in s]
         for _ in range(rng.randint(1, 3)):
+            if earlier and rng.random() < 0.35:
+                # an entry the model does not expect may only show as a wrong value once the pipeline has changed under it:
+                # update_defaults (the one mutation after which every resident entry must still be right), then an earlier call
+                roots = sorted({p for f in funcs for p, _ in f["params"] if not any(p in g["outputs"] for g in funcs) and p not in {b[0] for b in f["bound"]}})
+                if roots:
+                    k = rng.choice(roots)
+                    step = {"update_defaults": [[k, {"s": f"dflt3:{k}:{rng.randint(0, 1)}"}]]}
+                    if apply_impl(pu, lu, step, None):
+                        break
+                    funcs = apply_desc(funcs, step)
+                    cand["history"].append(step)
+                    cand["history"].append({"call": copy.deepcopy(rng.choice(earlier))})
+                    continue
             c = gen_call(rng, pu, funcs, earlier)
             if c is not None:
                 cand["history"].append({"call": c})
@@ -630,10 +702,64 @@ def repeat_inputs(desc, rng):
     return d
 
 
-def map_obs(p, log, desc, **kw):
+MAP_RICH_KINDS = ["dict2", "dict3", "dictint", "nested", "listdict", "tupledict", "ddict", "list"]   # no raw sets: results are hashed by later keys
+
+
+def rich_map_inputs(desc, rng, p_rich=0.6):
+    """Give some inputs of a map case values with representation freedom (harness/c09_values.py): every element of a mapped array
+    — also the repeated ones — is built in a way of its own, and a second run gets the same values built in yet another way.
+    `desc["inputs"]` keeps the ABSTRACT values (what the models get); `desc["c09_rich"]` / `["c09_rich2"]` say how to build them."""
+    d = copy.deepcopy(desc)
+    r1, r2, kinds = [], [], []
+
+    def elementwise_only(name):
+        # an object ndarray holding unhashable elements that reaches a cached function WHOLE (or as a slice) has no hashable key
+        # (C15's known finding KF-C15-raw-payload-unhashable): only arrays every consumer indexes on all axes get rich elements
+        for f in d["funcs"]:
+            if not any(p == name for p, _ in f["params"]):
+                continue
+            spec = next((a for a in ((f.get("mapspec") or {}).get("inputs") or []) if a[0] == name), None)
+            if spec is None or any(x is None for x in spec[1]):
+                return False
+        return True
+
+    for e in d["inputs"]:
+        name, v = e
+        if rng.random() >= p_rich or (isinstance(v, dict) and "arr" in v and not elementwise_only(name)):
+            continue
+        kind = rng.choice(MAP_RICH_KINDS)
+        nv = c09_values.KINDS[kind]
+        if isinstance(v, dict) and "arr" in v:
+            n = len(v["arr"][1])
+            va = [rng.randrange(nv) for _ in range(n)]
+            vb = [(x + 1 + rng.randrange(max(1, nv - 1))) % nv for x in va]
+            a, b = c09_values.wrap_array(kind, v, va), c09_values.wrap_array(kind, v, vb)
+        else:
+            x = rng.randrange(nv)
+            a, b = c09_values.wrap(kind, v, x), c09_values.wrap(kind, v, (x + 1) % nv)
+        r1.append([name, a])
+        r2.append([name, b])
+        kinds.append(kind)
+        e[1] = c09_values.abstract(a)
+    if r1:
+        d["c09_rich"], d["c09_rich2"], d["c09_rich_kinds"] = r1, r2, kinds
+    return d
+
+
+def map_inputs(desc, run=1):
+    out = mapgen.py_inputs(desc)
+    for name, rj in desc.get("c09_rich2" if run == 2 and "c09_rich2" in desc else "c09_rich") or []:
+        val = c09_values.dec(rj)
+        if desc["input_kinds"].get(name) == "list":
+            val = list(val)
+        out[name] = val
+    return out
+
+
+def map_obs(p, log, desc, run=1, **kw):
     log.clear()
     try:
-        res = mapgen.quiet(p.map, mapgen.py_inputs(desc), internal_shapes=mapgen.internal_shapes_arg(desc), storage="dict", **kw)
+        res = mapgen.quiet(p.map, map_inputs(desc, run), internal_shapes=mapgen.internal_shapes_arg(desc), storage="dict", **kw)
         out = {"outputs": {name: terms.enc(r.output) for name, r in res.items()}}
     except Exception as e:  # noqa: BLE001
         out = {"err": exc_enum(e), "msg": str(e)[:160]}
@@ -653,11 +779,11 @@ def run_map_case(desc, cfg, mode, base):
     u = map_obs(pu, lu, desc, parallel=False)
     if mode == "seq":
         c1 = map_obs(pc, lc, desc, parallel=False)
-        c2 = map_obs(pc, lc, desc, parallel=False)
+        c2 = map_obs(pc, lc, desc, run=2, parallel=False)
     else:
         with ThreadPoolExecutor(4) as ex:
             c1 = map_obs(pc, lc, desc, parallel=True, executor=ex)
-            c2 = map_obs(pc, lc, desc, parallel=True, executor=ex)
+            c2 = map_obs(pc, lc, desc, run=2, parallel=True, executor=ex)
     out = {"u": u, "c1": c1, "c2": c2}
     # a mutation between map runs: update_bound on a function that has a bound parameter, on the cached pipeline and on its
     # uncached twin; the cached map must return what the twin returns (the element cache is keyed by the selected kwargs,
@@ -673,6 +799,17 @@ def run_map_case(desc, cfg, mode, base):
             out["c3"] = map_obs(pc, lc, desc, parallel=False)
         except Exception as e:  # noqa: BLE001
             out["mut_err"] = exc_enum(e)
+    # update_defaults between map runs: a root argument the inputs leave to its default gets another default on both pipelines
+    supplied = {e[0] for e in d["inputs"]}
+    dflt = sorted({dd[0] for f in d["funcs"] for dd in f["defaults"] if dd[0] not in supplied and dd[0] not in {b[0] for b in f["bound"]}})
+    if dflt:
+        try:
+            for pp in (pu, pc):
+                mapgen.quiet(pp.update_defaults, {dflt[0]: "default-after-update"})
+            out["u4"] = map_obs(pu, lu, desc, parallel=False)
+            out["c4"] = map_obs(pc, lc, desc, parallel=False)
+        except Exception as e:  # noqa: BLE001
+            out["mut_err4"] = exc_enum(e)
     return out
 
 
@@ -684,7 +821,15 @@ def judge_map(ctx, case, elems, impl, c01, elems_resp):
             ctx.violation(case, "map after update_bound returns a value computed with the old bound value when caching is on "
                           "(the uncached twin returns the new one)", impl={"cached": impl["c3"], "uncached": impl["u3"]})
             return
+    if "u4" in impl:
+        ctx.count("map:update_defaults-between-runs")
+        if "err" not in impl["u4"] and impl["c4"].get("outputs") != impl["u4"].get("outputs"):
+            ctx.violation(case, "map after update_defaults " + (f"raises {impl['c4']['err']}" if "err" in impl["c4"] else "returns a value computed with the old default") +
+                          " when caching is on (the uncached twin returns the value for the new default)", impl={"cached": impl["c4"], "uncached": impl["u4"]})
+            return
     ctx.count(f"map:{mode}:{cfg['type']}")
+    for kind in desc.get("c09_rich_kinds") or []:
+        ctx.count(f"map:rich-values:{kind}")
     if "construct" in impl:
         ctx.violation(case, f"valid map pipeline refused at construction: {impl['construct']}")
         return
@@ -706,13 +851,13 @@ def judge_map(ctx, case, elems, impl, c01, elems_resp):
             ctx.violation(case, f"map with a cache returns other arrays than without ({tag} run, {mode})", impl={"cached": c["outputs"], "twin": u["outputs"]})
             return
     if "err" not in c01:
-        want = {k: terms.canon(v) for k, v in c01["outputs"]}
+        want = {k: c09_values.canon(v) for k, v in c01["outputs"]}
         if want != u["outputs"]:
             ctx.violation(case, "uncached map differs from PF.Map.runMap", found_input=False, item="correspondence:map-twin", impl=u["outputs"], model=want)
             return
     if mode == "seq":
         # the element calls pushed through the model's cache: exactly the first occurrence of every distinct call executes
-        ran = sorted(([e["name"], [[k, terms.canon(v)] for k, v in sorted(e["kwargs"], key=lambda kv: kv[0])]]
+        ran = sorted(([e["name"], [[k, c09_values.canon(v)] for k, v in sorted(e["kwargs"], key=lambda kv: kv[0])]]
                       for e, (v, executed) in zip(elems, elems_resp["results"]) if executed), key=repr)
         if c1["calls"] != ran:
             fewer = len(c1["calls"]) < len(ran)
@@ -773,26 +918,72 @@ CORPUS: list = [
     # update_defaults changes the key of later calls, so nothing stale is served
     _c([{"name": "g", "params": [["a", "a"]], "outputs": ["c"], "defaults": [["a", {"s": "A0"}]], "bound": []}, _F], ["f", "g"],
        [_call("d", []), {"update_defaults": [["a", {"s": "A1"}]]}, _call("d", []), _call("d", [("a", "A0")])]),
+    # seeded C09-s3-A: `f` is downstream of the owner of the defaulted `b` and does not take it; both calls rely on the default.
+    # The key of `f` must list every root argument (there is none for `b` here, so `f` is not cached at all): an entry keyed
+    # without `b` would survive the update
+    _c([{"name": "g", "params": [["a", "a"], ["b", "b"]], "outputs": ["c"], "defaults": [["b", {"s": "B0"}]], "bound": []},
+        {"name": "f", "params": [["c", "c"], ["x", "x"]], "outputs": ["d"], "defaults": [["x", {"s": "X0"}]], "bound": []}], ["f", "g"],
+       [_call("d", [("a", "1")]), {"update_defaults": [["b", {"s": "B1"}]]}, _call("d", [("a", "1")]), _call("d", [("a", "1")], True)]),
+    _c([{"name": "g", "params": [["a", "a"], ["b", "b"]], "outputs": ["c"], "defaults": [["b", {"s": "B0"}]], "bound": []},
+        {"name": "f", "params": [["c", "c"], ["x", "x"]], "outputs": ["d"], "defaults": [["x", {"s": "X0"}]], "bound": []}], ["f"],
+       [_call("d", [("a", "1")], True), {"update_defaults": [["b", {"s": "B1"}]]}, _call("d", [("a", "1")])], {"type": "disk"}),
+    # seeded C09-s3-B: equal arguments built in another way (dict key insertion order; nested; keyword order): the resident entry is used
+    _c([_G, _F], ["f", "g"], [{"call": {"out": "d", "kw": [["a", {"dict": [["lo", {"s": "1"}], ["hi", 7]]}]], "full": False}},
+                              {"call": {"out": "d", "kw": [["a", {"dict": [["hi", 7], ["lo", {"s": "1"}]]}]], "full": False}},
+                              {"call": {"out": "d", "kw": [["a", {"dict": [["hi", 7], ["lo", {"s": "1"}]]}]], "full": True}}]),
+    _c([_GB, _F], ["f", "g"], [{"call": {"out": "d", "kw": [["a", {"list": [{"s": "1"}, {"dict": [["p", 1], ["q", {"dict": [["x", 1], ["y", 2]]}]]}]}]], "full": True}},
+                               {"call": {"out": "d", "kw": [["a", {"list": [{"s": "1"}, {"dict": [["q", {"dict": [["y", 2], ["x", 1]]}], ["p", 1]]}]}]], "full": False}}],
+       {"type": "hybrid", "kwargs": {"shared": False}}),
+    _c([{"name": "g", "params": [["a", "a"], ["b", "b"]], "outputs": ["c"], "defaults": [], "bound": []}, _F], ["f", "g"],
+       [{"call": {"out": "d", "kw": [["a", {"dict": [["tag", {"s": "1"}], ["members", {"set": [1, 9]}]]}], ["b", {"counter": [["k", 2], ["zz", 1]]}]], "full": False}},
+        {"call": {"out": "d", "kw": [["b", {"counter": [["zz", 1], ["k", 2]]}], ["a", {"dict": [["members", {"set": [9, 1]}], ["tag", {"s": "1"}]]}]], "full": False}}],
+       {"type": "lru", "kwargs": {"shared": False}}),
+    # a default that is a dict, and the equal dict passed explicitly in another key order: same key, the entry is used
+    _c([{"name": "g", "params": [["a", "a"]], "outputs": ["c"], "defaults": [["a", {"dict": [["lo", {"s": "A0"}], ["hi", 7]]}]], "bound": []}, _F], ["f", "g"],
+       [_call("d", []), {"call": {"out": "d", "kw": [["a", {"dict": [["hi", 7], ["lo", {"s": "A0"}]]}]], "full": False}},
+        {"update_defaults": [["a", {"dict": [["hi", 7], ["lo", {"s": "A0"}]]}]]}, _call("d", [])]),
 ]
 
 
 # ---------------------------------------------------------------------------------------------- run
+def _guarded(ctx, case, what, fn, *a, **k):
+    """Whatever goes wrong while replaying / judging what the implementation did is an OBSERVATION about the implementation
+    (a tree that misbehaves in a way the harness did not foresee must be reported, not crash the check with exit 2)."""
+    try:
+        return fn(*a, **k)
+    except framework.Infra:
+        raise
+    except Exception as e:  # noqa: BLE001
+        import traceback
+        ctx.count(f"harness-exception:{what}:{exc_enum(e)}")
+        ctx.violation(case, f"the harness could not {what} ({type(e).__name__}: {str(e)[:120]}): the implementation left something the harness cannot read",
+                      found_input=False, item="correspondence:harness-exception", impl={"traceback": traceback.format_exc()[-1500:]})
+        return None
+
+
 def run(ctx):
     rng = ctx.rng
     base = tempfile.mkdtemp(prefix="verif-c09-")
     try:
-        cases = [copy.deepcopy(c) for c in CORPUS]
+        import os
+        only_random = os.environ.get("VERIF_C09_ONLY_RANDOM") == "1"      # experiments: what do the random streams find on their own?
+        cases = [] if only_random else [copy.deepcopy(c) for c in CORPUS]
         # exhaustive family on the chain
-        chain = list(chain_cases(2 if ctx.tier == "quick" else 3))
+        chain = [] if only_random else list(chain_cases(2 if ctx.tier == "quick" else 3))
         if ctx.tier == "quick":
             chain = rng.sample(chain, min(len(chain), 300))
         cases += chain
         ctx.count("stream:chain-exhaustive", len(chain))
-        fchain = list(fail_chain_cases(2 if ctx.tier == "quick" else 3))
+        fchain = [] if only_random else list(fail_chain_cases(2 if ctx.tier == "quick" else 3))
         if ctx.tier == "quick":
             fchain = rng.sample(fchain, min(len(fchain), 160))
         cases += fchain
         ctx.count("stream:fail-chain-exhaustive", len(fchain))
+        dsand = [] if only_random else list(defaults_sandwich_cases())
+        if ctx.tier == "quick":
+            dsand = rng.sample(dsand, min(len(dsand), 150))
+        cases += dsand
+        ctx.count("stream:defaults-sandwich-exhaustive", len(dsand))
         # random DAGs x every cached subset x cache kinds x histories
         n_dags = ctx.n(150, 5000)
         for d in range(n_dags):
@@ -812,12 +1003,17 @@ def run(ctx):
                 else:
                     cfg = {"type": "disk"}
                 for _ in range(2 if len(names) <= 2 else 1):
-                    p_mut = rng.choice([0.0, 0.0, 0.25])
+                    p_mut = rng.choice([0.0, 0.0, 0.25, 0.4])
                     p_fail = rng.choice([0.0, 0.0, 0.2])
                     case = gen_history(rng, desc, sub, cfg, base, rng.randint(2, 6), p_mut, p_fail)
                     if case is None:
                         ctx.skip("history-not-generated")
                         continue
+                    if rng.random() < 0.4:
+                        # equal arguments in another representation: every occurrence of a value is built in its own way
+                        # (dict / set insertion order, separately built containers), the keywords come in a random order
+                        case["history"], styles = c09_values.richify_calls(rng, case["history"])
+                        case["rich"] = sorted(set(styles.values()))
                     cases.append(case)
         # malformed stream: a history ending in a surplus / missing keyword or an unknown output
         for _ in range(ctx.n(40, 1200)):
@@ -838,25 +1034,26 @@ def run(ctx):
             case["malformed"] = True
             cases.append(case)
             ctx.count("stream:malformed")
-        impls = [run_history(c, base) for c in cases]
+        impls = [_guarded(ctx, c, "drive the pipeline through the history", run_history, c, base) or {"steps": [], "resident": None} for c in cases]
         resps = ctx.lean([model_request(c) for c in cases])
         # failures of the property itself come first (they are the concrete replays), then the correspondence with the model
-        report_failures(ctx, [c for c, i in zip(cases, impls) if "steps" in i and first_failure(c, i) is not None], base)
+        _guarded(ctx, None, "shrink and report the failing histories", report_failures, ctx,
+                 [c for c, i in zip(cases, impls) if "steps" in i and first_failure(c, i) is not None], base)
         found_near = []
         for case, impl, resp in zip(cases, impls, resps):
             before = len(ctx.violations) + ctx.suppressed
-            judge_history(ctx, case, impl, resp, [])
+            _guarded(ctx, case, "compare the history with the model", judge_history, ctx, case, impl, resp, [])
             if len(ctx.violations) + ctx.suppressed > before and ctx.cov["neighbourhood-searches"] < 8:
                 # the model and the implementation disagree on something the statement does not demand: look for a real failure nearby
                 ctx.count("neighbourhood-searches")
-                found = search_neighbourhood(ctx, case, base)
+                found = _guarded(ctx, case, "search the neighbourhood of a disagreement", search_neighbourhood, ctx, case, base)
                 if found is not None:
                     ctx.count("neighbourhood-search:failing-input-found")
                     found_near.append(found)
-        report_failures(ctx, found_near, base)
-        run_maps(ctx, rng, base)
-        run_race(ctx, base)
-        c09_ext.run_ext(ctx, base)
+        _guarded(ctx, None, "shrink and report the failing histories", report_failures, ctx, found_near, base)
+        _guarded(ctx, None, "run the map stream", run_maps, ctx, rng, base)
+        _guarded(ctx, None, "run the race stream", run_race, ctx, base)
+        _guarded(ctx, None, "run the extension streams", c09_ext.run_ext, ctx, base)
     finally:
         shutil.rmtree(base, ignore_errors=True)
 
@@ -889,7 +1086,9 @@ def run_maps(ctx, rng, base):
     cases = []
     for k in range(ctx.n(60, 1500)):
         desc = repeat_inputs(mapgen.gen_case(rng, max_funcs=3, kinds=["elem", "elem", "outer", "partial", "full", "scalar"],
-                                              p_bound=0.1 if k % 2 else 0.6), rng)
+                                              p_bound=0.1 if k % 2 else 0.6, p_default=0.6 if k % 2 == 1 else 0.15), rng)
+        if rng.random() < 0.4:
+            desc = rich_map_inputs(desc, rng)
         r = rng.random()
         mode = "seq" if k % 3 else "threads"
         if mode == "threads":
@@ -903,7 +1102,7 @@ def run_maps(ctx, rng, base):
         else:
             cfg = {"type": "disk"}
         cases.append({"kind": "map", "desc": desc, "cache": cfg, "mode": mode})
-    impls = [run_map_case(c["desc"], c["cache"], c["mode"], base) for c in cases]
+    impls = [_guarded(ctx, c, "run the map case", run_map_case, c["desc"], c["cache"], c["mode"], base) for c in cases]
     c01 = ctx.lean([{"m": "map.run", "a": mapgen.model_request(c["desc"])} for c in cases], driver="C01")
     reqs, all_elems = [], []
     for c, m in zip(cases, c01):
@@ -913,7 +1112,8 @@ def run_maps(ctx, rng, base):
         reqs.append({"m": "map.elems", "a": {"elems": elems}})
     el = ctx.lean(reqs)
     for c, elems, impl, m, e in zip(cases, all_elems, impls, c01, el):
-        judge_map(ctx, c, elems, impl, m["r"], e["r"])
+        if impl is not None:
+            _guarded(ctx, c, "judge the map case", judge_map, ctx, c, elems, impl, m["r"], e["r"])
 
 
 RACE_CORPUS = [
@@ -929,7 +1129,9 @@ def run_race(ctx, base):
     """Shared-cache parallel map runs under a deterministic schedule (harness/c09_race.py): a later element looks its key up
     while the first element is in the middle of `cache.put`.  Only containers that pickle inside `put` can be staged this way."""
     for case in RACE_CORPUS:
-        ob = c09_race.run_case(case, base)
+        ob = _guarded(ctx, case, "run the staged race", c09_race.run_case, case, base)
+        if ob is None:
+            continue
         ctx.count("race:" + case["cache_type"] + ":" + ",".join(sorted(case["cache_kwargs"])) )
         u, c = ob["u"], ob["c"]
         ctx.record(case, nontrivial="err" not in u)
